@@ -534,6 +534,12 @@ def run_port(inst, var, out):
     ft = out.get("float_ties", {"mf": True, "heap": True})
     why = [w for w in fr.why if not (w == "most_fractional: equal fractional parts" and not ft["mf"])
            and not (w == "heap: equal bounds from different parents" and not ft["heap"])]
+    lns = out.get("lns")
+    if lns and lns.get("answer") is not None and lns["answer"] != lns["given"] and \
+            [lns_q(v) for v in lns["answer"]] == [lns_q(v) for v in lns["given"]]:
+        # the incumbent handed to _lns_improve and its answer are the same rational point but differ as floats (round-off in an LP
+        # value): `improved_obj < best_obj` / `improved not in all_solutions` are then decided by noise
+        why = why + ["lns: answer equals the incumbent up to float round-off"]
     return r, why
 
 
